@@ -1,6 +1,7 @@
 import GoframeModel.Ops.Agg
 import GoframeModel.Spec.Agg
 import GoframeModel.Lemmas.Agg
+import GoframeModel.Props.C16Rounding
 /-
   C16 — aggregations and element-wise Add equal the arithmetic reference (exact arithmetic; IEEE
   rounding is outside the model).
@@ -73,5 +74,53 @@ theorem add_col_lengths (ω : Oracle) (fill : Cell) (a b out : List Cell) (h : a
 theorem add_name_mismatch (ω : Oracle) (f other : Frame) (fill : Cell)
     (h : ∃ kc ∈ f, other.has kc.1 = false) : (f.add ω other fill).isErr = true := by
   exact AggLemmas.add_name_mismatch ω f other fill h
+
+/-! ### "(within floating-point rounding)"
+
+The theorems above equate the model with the ARITHMETIC reference (finite floats are added as exact rationals).
+The Go code adds in float64. The distance between the two, for every list, every length and every rounding
+function with relative error ≤ u (IEEE-754 round-to-nearest: u = 2⁻⁵³, absent overflow), is bounded here;
+the proofs are in `Props/C16Rounding.lean` / `Lemmas/FloatErr.lean` (these two use Mathlib's `linarith`,
+`ring`, `positivity`, `norm_num`). -/
+
+open Rounding in
+/-- Series.Sum in float64 vs the arithmetic sum: |fl-sum − Σx| ≤ ((1+u)ⁿ − 1)·Σ|x| -/
+theorem float_sum_error (fl : Rat → Rat) (u : Rat) (hu : 0 ≤ u) (h : RelErr fl u) (xs : List Rat) :
+    rabs (fsum fl xs - exactSum xs) ≤ ((1 + u) ^ xs.length - 1) * absSum xs :=
+  C16R.fsum_error fl u hu h xs
+
+open Rounding in
+/-- (1+u)ⁿ − 1 ≤ γₙ = nu / (1 − nu) -/
+theorem float_gamma (u : Rat) (n : Nat) (hu : 0 ≤ u) (h : (n : Rat) * u < 1) :
+    (1 + u) ^ n - 1 ≤ (n : Rat) * u / (1 - (n : Rat) * u) :=
+  C16R.gamma_le u n hu h
+
+open Rounding in
+/-- float64, up to 4096 summands: the error is below 2⁻⁴⁰·Σ|x| — exactly the slack the correspondence check
+grants to sums and means (`cellApproxS` in lean/Driver/Seq.lean), so a disagreement it reports is not rounding -/
+theorem float_sum_within_tolerance (fl : Rat → Rat) (h : RelErr fl u64) (xs : List Rat) (hn : xs.length ≤ 4096) :
+    rabs (fsum fl xs - exactSum xs) * 1099511627776 ≤ absSum xs :=
+  C16R.fsum_within_tolerance fl h xs hn
+
+open Rounding in
+/-- Series.Mean in float64 (the quotient is rounded once more) vs the arithmetic mean -/
+theorem float_mean_error (fl : Rat → Rat) (u : Rat) (hu : 0 ≤ u) (h : RelErr fl u) (xs : List Rat) (hne : xs ≠ []) :
+    rabs (fmean fl xs - exactSum xs / (xs.length : Rat)) ≤
+      ((1 + u) ^ (xs.length + 1) - 1) * absSum xs / (xs.length : Rat) :=
+  C16R.fmean_error fl u hu h xs hne
+
+open Rounding in
+/-- "agree with each other on the same column": two float summations of the same cells in different orders
+(Series.Sum, frame-level Sum, Describe's mean row) differ by at most twice the bound -/
+theorem float_sum_order_close (fl : Rat → Rat) (u : Rat) (hu : 0 ≤ u) (h : RelErr fl u) (xs ys : List Rat)
+    (hp : xs.Perm ys) :
+    rabs (fsum fl xs - fsum fl ys) ≤ 2 * (((1 + u) ^ xs.length - 1) * absSum xs) :=
+  C16R.fsum_perm_close fl u hu h xs ys hp
+
+open Rounding in
+example : RelErr (fun x => x) 0 ∧ fsum (fun x => x) [1, 2, 3] = exactSum [1, 2, 3] := by
+  constructor
+  · intro x; simp [rabs]
+  · simp [fsum, exactSum]
 
 end Goframe.C16
